@@ -158,6 +158,16 @@ def write_market(csv_dir, market):
 # --------------------------------------------------------------------------------------------------
 # alpha models (written here; same style as /repo/examples/momentum_taa.py)
 # --------------------------------------------------------------------------------------------------
+class WindowUniverse(object):
+    """a universe whose assets enter and may leave again (the library ships none that shrinks; the Universe interface is get_assets)"""
+
+    def __init__(self, windows):
+        self.windows = windows
+
+    def get_assets(self, dt):
+        return [a for a, (entry, exit_) in self.windows.items() if entry <= dt and (exit_ is None or dt < exit_)]
+
+
 class UniverseWeightsAlphaModel(AlphaModel):
     """Fixed weights, but only for the assets that are in the universe at dt (zero otherwise)."""
 
@@ -282,6 +292,11 @@ def build_session(csv_dir, cfg, data_source=None):
     ucfg = cfg.get("universe") or {"kind": "static"}
     if ucfg["kind"] == "static":
         universe = StaticUniverse(assets)
+    elif ucfg["kind"] == "window":
+        # assets may also LEAVE: member iff entry <= dt < exit (missing entry -> start, missing exit -> never)
+        dates, exits = ucfg.get("dates") or {}, ucfg.get("exits") or {}
+        universe = WindowUniverse({asset_of(s): (ts(dates[s]) if s in dates else start_dt, ts(exits[s]) if s in exits else None)
+                                   for s in symbols})
     else:
         dates = ucfg.get("dates") or {}
         universe = DynamicUniverse({asset_of(s): (ts(dates[s]) if s in dates else start_dt) for s in symbols})
